@@ -17,7 +17,7 @@ _m(
     "semi-angle cut-off crossing the mask edge (soft-aperture weights in (0,1)) or 3x the mask radius (all weights 1); "
     "hyper-parameters given at construction or as override_* arguments of reconstruct; 1 case in 5 is a 'lattice' "
     "configuration (isotropic sampling, scan-frequency step 0.5/1/2 detector pixels exactly, rotation and aberration angles "
-    "multiples of pi/4, cut-off on a half-integer pixel radius) where exact ties and transfer-function zeros occur.  (meta) adds kernel name over all 24 "
+    "multiples of pi/4, cut-off on a half-integer pixel radius) where exact ties and transfer-function zeros occur.  (meta) adds kernel name over all 21 "
     "spellings of the five kernels (ssb/single-sideband/acbf/..., obf, mf, prlx/parallax/tcbf/..., icom/center-of-mass, mixed "
     "case) with a second spelling of the same kernel for the batched calls, upsampling None/1/2/3, q_lowpass (1 in 2, above the "
     "first scan frequency) and q_highpass (1 in 3), parallax_flip_phase, soft_edges, the batch sizes {1, n-1, n, largest "
@@ -47,11 +47,17 @@ _m(
         "the same un-batched reconstruction under a 3e-6 relative change of every hyper-parameter (~50 float32 ulp; angles "
         "3e-6 rad) (for corrected_bf: that change + sqrt(n) x the per-image change); comparisons between runs with identical "
         "batch composition (linearity, call history) get no such allowance -- their kernel factors are bit-identical.  Largest "
-        "error as a fraction of the allowance on the clean tree: 0.15",
+        "error as a fraction of the allowance on the clean tree: 0.15 (second soak of 3 600 + 7 200 cases with the final "
+        "tolerances: <= 0.10 for every relation and kernel); about 5 % of the ssb/obf/mf cases have a sensitivity above 1 % of "
+        "max |result| and are thereby effectively not judged by relations 1, 3, 5 (counted as ill_conditioned)",
         "aperture weights W = sum_k |probe(k)|^2 are recomputed by the harness from the public evaluate_probe / "
         "spatial_frequencies functions on the un-cropped grid with the harness's own wavelength (CODATA constants; differs "
         "from quantem's by ~2e-7 relative) and the default soft aperture, which is what reconstruct normalises by; the "
         "recombination relation is therefore only asserted for soft_edges=True instances",
+        "corrected_stack is the real part of a complex field whose rounding noise (~1e-7 of the field) does not shrink when the "
+        "real part happens to be small (seen: ssb without aberrations, two surviving bins, purely imaginary image, real part "
+        "1e-10 of the input scale): comparison scales are never taken below 0.1 x max |stack - 1| / W, and a result below 1e-6 "
+        "of that is recorded as zero_result and not judged",
         "a reconstruction mask with total aperture weight < 0.5 pixel is outside the domain (division by ~0); so are "
         "asymmetric masks with crop_bf_mask=True (the crop moves DC), mask pixels on the Nyquist row/column, and batch sizes "
         "> num_bf",
